@@ -893,6 +893,11 @@ class Dimensions(metaclass=MetaDims):
 
     def replace_superrep(self, super_rep: str) -> "Dimensions":
         if not self.issuper and super_rep is not None:
+            if self.type == 'scalar':
+                # A superoperator space over a 1-dimensional system is merged
+                # to a scalar (`auto_tidyup_dims`): there is no representation
+                # to keep track of.
+                return self
             raise TypeError("Can't set a superrep of a non super object.")
         return Dimensions(
             self.from_.replace_superrep(super_rep),
